@@ -98,6 +98,15 @@ def _case(job, only):
     return {"jobparams_full": j, "only": only, "job": job["name"]}
 
 
+def _try_ref(method, key, ct):
+    try:
+        if method == "xor":
+            return _xor_ref(key, ct)
+        return RA.cbc_decrypt(key, ct[:16], ct[16:])
+    except Exception:  # noqa
+        return None
+
+
 def _xor_ref(key, data):
     return bytes(b ^ key[i % len(key)] for i, b in enumerate(data))
 
@@ -121,6 +130,8 @@ def _roundtrip(job, ctx):
             if n == 0 and pname != "zeros":
                 continue
             if only and only != [n, pname]:
+                continue
+            if only == ["sessions"]:
                 continue
             case = _case(job, [n, pname])
             fp = "C08|%s|len%%16=%d|" % (method, n % 16)
@@ -209,6 +220,38 @@ def _roundtrip(job, ctx):
                     bad("xor-not-key-cycle", "XOR output is not p XOR key repeated")
                 if prov.encrypt(sv.ciphertext) != p:
                     bad("xor-not-involution", "applying XOR twice is not the identity")
+    # one KeyFile object over several sessions with the key file replaced in between: each session uses the key on disk
+    if not only or only == ["sessions"]:
+        okeys = [k for n, k in sorted(allkeys.items()) if k != key][:2]
+        kfs, spath = _keyfile(ctx, key, "sessions.key")
+        p = patterns(40)["ramp"]
+        prev = None
+        for si, kbytes in enumerate([key] + okeys + [key]):
+            with open(spath, "wb") as fh:
+                fh.write(kbytes)
+            try:
+                with kfs as c:
+                    sv = c.encrypt(p, method=method)
+                    back = c.decrypt(sv)
+                    old = None
+                    if prev is not None:
+                        try:
+                            old = c.decrypt(prev[1])
+                        except Exception:  # noqa
+                            old = None
+            except Exception as exc:  # noqa
+                ctx.violation("C08|%s|sessions|raises" % method, "session %d on one KeyFile object raised %r" % (si, exc), _case(job, ["sessions"]))
+                break
+            ctx.transitions += 1
+            ctx.case((job["key"], method, "session", si), "session:%d" % si, True)
+            refp = _try_ref(sv.method, kbytes, sv.ciphertext)
+            if back != p or refp != p:
+                ctx.violation("C08|%s|sessions|stale-key" % method,
+                              "session %d of one KeyFile object (key file replaced before it) does not encrypt under the key now on disk" % si, _case(job, ["sessions"]))
+            if prev is not None and prev[0] != kbytes and old == p and sv.method == "aes":
+                ctx.violation("C08|%s|sessions|old-value-still-decrypts" % method,
+                              "a value made under the previous key still decrypts in session %d after the key file was replaced" % si, _case(job, ["sessions"]))
+            prev = (kbytes, sv)
     ctx.traces += 1
     ctx.sample({"key": job["key"], "method": method, "lengths": "0..%d" % job["max_len"], "patterns": sorted(patterns(1))})
 
@@ -280,6 +323,8 @@ STORED_BAD = [
     ("aes-unaligned", V.D(("method", "aes"), ("ciphertext", base64.b64encode(b"x" * 41).decode()))),
     ("aes-empty", V.D(("method", "aes"), ("ciphertext", ""))),
     ("method-int", V.D(("method", 5), ("ciphertext", "QUJD"))),
+    ("xor-not-utf8", V.D(("method", "xor"), ("ciphertext", base64.b64encode(bytes(b ^ k for b, k in zip(b"\xff\xfe\xc3(", bytes(range(32))))).decode()))),
+    ("aes-not-utf8", V.D(("method", "aes"), ("ciphertext", base64.b64encode(bytes(range(16)) + RA.cbc_encrypt(bytes(range(32)), bytes(range(16)), b"\xff\xfe\xc3( not text")).decode()))),
 ]
 
 
